@@ -486,3 +486,17 @@ Proof. rewrite filter_nodes_spec. apply accepted_spec_nodup_ids. Qed.
 
 Lemma witness_is_shuffle (ws : N -> option (list nrec)) : is_shuffle (fun d g => pick_perm (ws d) g).
 Proof. intros d l. apply pick_perm_perm. Qed.
+
+(* the phase of the table (initial seeding finished or not) makes no difference to the reply *)
+Lemma findnodes_any_phase init_done tab self rip shuf dists :
+  handle_find_nodes_st init_done tab self rip shuf dists = handle_find_nodes tab self rip shuf dists.
+Proof. reflexivity. Qed.
+
+Lemma findnodes_reply_records_any_phase shuf : is_shuffle shuf -> forall init_done tab self rip dists enrs,
+  handle_find_nodes_st init_done tab self rip shuf dists = Ok enrs ->
+  nlen enrs <= 32 /\
+  forall r, In r enrs ->
+    relay_ok rip (rflags r) = true /\
+    ((r = self /\ In 0 dists) \/
+     (exists d b, In d dists /\ 1 <= d <= 256 /\ nth_error tab (bucket_index d) = Some b /\ In (r, true) b)).
+Proof. intros Hs init_done tab self rip dists enrs H. rewrite findnodes_any_phase in H. now apply (findnodes_reply_records shuf Hs). Qed.
